@@ -365,6 +365,7 @@ func Valid(data []byte) bool {
 	var v interface{}
 	r := bytes.NewReader(data)
 	decoder := NewDecoder(r)
+	decoder.UseNumber() // validity does not depend on what a float64 can hold
 	if err := decoder.Decode(&v); err != nil {
 		return false
 	}
